@@ -24,11 +24,16 @@ def run(pid, tier, replay, scenarios_fn, rule, assumptions, level="model_checkin
     rng = random.Random(seed() * 7919 + sum(ord(c) for c in pid))
     verdict = Verdict(pid)
     camp = T.Campaign(wd)
+    replay_info = {}
     if replay:
         rp = json.load(open(replay))
         scenarios = [rp["replay"]["scenario"]]
     else:
         scenarios = scenarios_fn(rng, tier)
+        # spec -> implementation: behaviours simulated by TLC on MC_Tower become scripts
+        import mc_tower
+        replayed, replay_info = mc_tower.replay_scenarios(pid, tier, seed())
+        scenarios = scenarios + replayed
     camp.run(scenarios, pid.lower())
     mine = [t for t in camp.tags if t["prop"] == pid or (extra_tags and extra_tags(t))]
     others = {}
@@ -56,6 +61,7 @@ def run(pid, tier, replay, scenarios_fn, rule, assumptions, level="model_checkin
         "trace_validation_states": camp.tlc_states,
         "aborts_of_code_under_test_observed": camp.aborts,
         "concurrent_schedules_executed": getattr(camp, "conc_schedules", 0),
+        "spec_to_impl_tlc_behaviours_replayed": replay_info,
         "tags_of_other_properties": {"%s.%s" % k: v for k, v in others.items()},
         "known_findings_hit": verdict.known_hits,
         "samples": camp.samples[:3] if camp.samples else [{"scenario": scenarios[0]["name"], "ops": scenarios[0]["ops"][:8]}],
